@@ -1,4 +1,5 @@
 """C16-C19 share one driver: case specs (vf/decsuite.py) x the obligations of each property."""
+import io
 import re
 
 import z3
@@ -85,8 +86,8 @@ def specs(pid, tier):
         for cb in (129, 130, 255, 128, 127) if T else (129, 255, 128):
             sp.append(("unsquashcount", cb))
         sp.append(("vefsq", 0))
-        if T:
-            sp.append(("vefsq", 3))
+        sp.append(("vefsq", 3))
+        sp.append(("vefsq", 1))
     elif pid == "C18":
         for w in range(1, 9 if not T else 13):
             for h in (1, 2):
@@ -113,6 +114,8 @@ def specs(pid, tier):
         for tb in (0, 1, 3):
             sp.append(("vef", tb, 2, None))
         sp.append(("vefsq", 3))
+        sp.append(("vefsq", 0))
+        sp.append(("vefsq", 1))
         # standard input instead of a file: same bytes, same result (with and without -s)
         sp.append(("pipe", ("hrs", 4, 1, None, 18)))
         sp.append(("pipe", ("hrs", 4, 1, 2, 20)))
@@ -591,17 +594,66 @@ def unsquash_boundary(out, spec, st):
     out["samples"].append({"case": name, "bytes_expected": len(want)})
 
 
+def vef_real_run(raw):
+    """the real veftopng.start on a file with these bytes -> (status, pixel values in the PNG, width * height)"""
+    import contextlib
+    import os
+    import shutil
+    import tempfile
+
+    import coco.veftopng as V
+    import png as _png
+
+    d = tempfile.mkdtemp(prefix="vefr")
+    try:
+        with open(os.path.join(d, "i.vef"), "wb") as f:
+            f.write(raw)
+        try:
+            with contextlib.redirect_stdout(io.StringIO()), contextlib.redirect_stderr(io.StringIO()):
+                V.start([os.path.join(d, "i.vef"), os.path.join(d, "o.png")])
+        except SystemExit as e:
+            return ("exit:" + str(e.code), 0, 0)
+        except BaseException as e:  # noqa: BLE001
+            return (type(e).__name__, 0, 0)
+        try:
+            w, h, rows, info = _png.Reader(filename=os.path.join(d, "o.png")).read()
+            return ("ok", sum(len(r) for r in rows), w * h)
+        except Exception:  # noqa: BLE001
+            return ("ok", -1, 0)
+    finally:
+        shutil.rmtree(d, ignore_errors=True)
+
+
 def vef_pixels(out, spec, st):
     if spec[0] == "vefsq":
         tb = spec[1]
         ol = 80 if tb in (0, 1) else 40
-        # 400 records; first two carry symbolic payload, the rest are one repeat group of a concrete byte
-        recs = [[3, 2, "sym", "sym"], [2, 130, "sym"]] + [[2, 129, 7]] * 398
-        case = S.vef_case(tb, 3, recs)
+        # 400 records; the first three carry symbolic payload (a literal group, a short repeat group, and a repeat group that
+        # fills a whole half scan line of `ol` bytes), the rest are one repeat group of a concrete byte
+        recs = [[3, 2, "sym", "sym"], [2, 130, "sym"], [2, 128 + ol, "sym"]] + [[2, 129, 7]] * 397
+        case = S.vef_case(tb, 4, recs)
     else:
         case = make_case(spec)
     out["name"] = case.name
     out["encoded"].append(("veftopng.start", case.src))
+    if case.params.get("type_byte") in (0, 1, 3):
+        # a well-formed file of a supported screen type is converted on at least one path (otherwise everything below is vacuous)
+        st.bump("obligations")
+        if any(p["status"] == "ok" and p["writer"] is not None and p["writer"].bitmap is not None for p in case.paths):
+            st.bump("identity")
+        else:
+            # replay on a complete file of that type: the symbolic case is a prefix / a file of short records, which a
+            # (correct) length check may refuse - only a refused COMPLETE file is a violation
+            why = sorted(set(p["detail"][:50] for p in case.paths))[:2]
+            tbv = case.params["type_byte"]
+            size, ol2 = (32000, 80) if tbv in (0, 1) else (16000, 40)
+            full = bytes([0, tbv] + list(range(16))) + bytes((i * 5) % 256 for i in range(size)) if spec[0] != "vefsq" else bytes([128, tbv] + list(range(16))) + bytes([2, 128 + ol2, 9]) * 400
+            stt, npix, exp = vef_real_run(full)
+            out["replays"] += 1
+            if stt == "ok" and npix == exp:
+                out["sigs"].append(("harness-gap", f"{case.name}: every symbolic path ends in {why} although a complete file of this type converts: pixel obligations not decided", None))
+            else:
+                out["sigs"].append((f"rejected:veftopng:type{tbv}:{'squashed' if spec[0] == 'vefsq' else 'raw'}", f"{case.name}: a complete well-formed file of this type is not converted: {stt}, {npix} of {exp} pixel values (symbolic paths: {why})", {"case": str(spec), "input_hex": full[:40].hex()}))
     for p in case.paths:
         out["paths"] += 1
         out["forks"] += p["decisions"]
@@ -626,7 +678,7 @@ def vef_pixels(out, spec, st):
         data = [term(x) if not isinstance(x, int) else bv(x) for x in p["body"]]
         if spec[0] == "vefsq":
             d = p["data"]
-            data = [term(d[0]), term(d[1]), term(d[2]), term(d[2])] + [bv(7)] * 398
+            data = [term(d[0]), term(d[1]), term(d[2]), term(d[2])] + [term(d[3])] * (80 if case.params["type_byte"] in (0, 1) else 40) + [bv(7)] * 397
         want = []
         for b in data:
             if tb == 0:
@@ -1062,6 +1114,13 @@ def _truncation_sweeps(out, spec, st):
                     f.write(raw)
                 try:
                     V.start([os.path.join(d, "i.vef"), os.path.join(d, "o.png")])
+                except SystemExit as e:
+                    if e.code in (0, None) and not os.path.exists(os.path.join(d, "o.png")):
+                        return "ok", -2, 0  # exit status 0 = success reported, and there is no image at all
+                    if e.code in (0, None):
+                        pass
+                    else:
+                        return "SystemExit", 0, 0
                 except BaseException as e:  # noqa: BLE001
                     return type(e).__name__, 0, 0
                 # the tool reported success: is the file it wrote a complete image?
@@ -1101,6 +1160,13 @@ def _truncation_sweeps(out, spec, st):
                 import shutil as _sh
 
                 _sh.rmtree(dd, ignore_errors=True)
+            for raw_h, nm in ((b"", "empty"), (bytes([0, 2] + list(range(16))) + bytes(100), "type-2"), (bytes([0, 255] + list(range(16))) + bytes(100), "type-255"), (bytes([128, 5] + list(range(16))) + bytes([2, 129, 7]) * 400, "squashed-type-5")):
+                with contextlib.redirect_stdout(io.StringIO()), contextlib.redirect_stderr(io.StringIO()):
+                    stt, n, exp = run(raw_h)
+                st.bump("obligations")
+                out["paths"] += 1
+                if stt == "ok" and n != exp:
+                    out["sigs"].append((f"silent:veftopng:damaged-header-exit-status-0:{nm}", f"VEF with a damaged header ({nm}): the tool ends with exit status 0 and no complete image", {"header": nm}))
             # type 0: 320x200x16; type 1: 640x200x4 (re-opened and resized through Pillow, whose loader is what notices
             # missing rows: this sweep is also the validation of the Image.open contract used by the symbolic cases)
             for tbyte, tag in ((0, ""), (1, ":640-wide")):
@@ -1281,9 +1347,22 @@ def complete_files(ctx):
     runs = b"".join(bytes([250, (i * 7) % 256]) for i in range(128))
     mixed = b"".join(bytes([255, i % 256]) for i in range(125)) + bytes([124, 3, 1, 4, 0])  # 125 * 255 + 124 + 1 = 32000
     files["mgetoppm:rle-short-last-runs"] = [(head_mr + runs[:-2] + bytes([249, 5, 1, 9, 0]), ()), (head_mr + mixed, ())]
+    # RAT pictures whose run packets (escape, count, value) start at every offset just before, at and after multiples of 512
+    # up to 8192 (a decoder that reads its input in blocks must put the three bytes together again)
+    head_r = files["rattoppm"][0][0][:19]
+    esc = head_r[0]
+    for base in (512, 2048, 4096, 8192):
+        pics = []
+        for delta in (-3, -2, -1, 0, 1):
+            k = base + delta
+            body = bytes((i * 3) % esc for i in range(k)) + bytes([esc, 6, 9])
+            rest = 199 * 160 - k - 6
+            body += bytes((i * 5) % esc for i in range(rest))
+            pics.append((head_r + body, ()))
+        files[f"rattoppm:run-packet-near-offset-{base}"] = pics
     for key, pair in sorted(files.items()):
         mod = importlib.import_module("coco." + key.split(":")[0])
-        for which, (raw, args) in zip("AB", pair):
+        for which, (raw, args) in zip("ABCDE", pair):
             out = io.BytesIO()
             ctx.stats["obligations"] += 1
             ctx.stats["programs"] += 1
